@@ -10,6 +10,7 @@ import (
 type Disk struct {
 	Files map[string][]byte
 	Dirs  map[string]bool
+	Links map[string]string // symbolic links: path -> target (absolute, or relative to the link's directory)
 }
 
 // NewDisk returns an empty disk containing only "/".
@@ -22,6 +23,12 @@ func (d *Disk) Clone() *Disk {
 	n := &Disk{Files: make(map[string][]byte, len(d.Files)), Dirs: make(map[string]bool, len(d.Dirs))}
 	for k, v := range d.Files {
 		n.Files[k] = v
+	}
+	if d.Links != nil {
+		n.Links = make(map[string]string, len(d.Links))
+		for k, v := range d.Links {
+			n.Links[k] = v
+		}
 	}
 	for k := range d.Dirs {
 		n.Dirs[k] = true
@@ -46,6 +53,58 @@ func (d *Disk) Put(p string, content []byte) {
 	p = CleanPath(p)
 	d.MkdirAll(parentDir(p))
 	d.Files[p] = content
+}
+
+// Symlink creates a symbolic link at p pointing to target, creating p's ancestors.
+func (d *Disk) Symlink(p, target string) {
+	p = CleanPath(p)
+	d.MkdirAll(parentDir(p))
+	if d.Links == nil {
+		d.Links = map[string]string{}
+	}
+	d.Links[p] = target
+}
+
+// Resolve follows symbolic links in p (all components; the last one only when
+// followLast). It returns the resolved path and 0, or an errno (ELOOP).
+func (d *Disk) Resolve(p string, followLast bool) (string, int64) {
+	if len(d.Links) == 0 {
+		return p, 0
+	}
+	hops := 0
+	for {
+		segs := strings.Split(strings.Trim(p, "/"), "/")
+		cur := ""
+		changed := false
+		for i, sg := range segs {
+			if sg == "" {
+				continue
+			}
+			next := cur + "/" + sg
+			last := i == len(segs)-1
+			if t, ok := d.Links[next]; ok && (!last || followLast) {
+				hops++
+				if hops > 40 {
+					return p, int64(syscall.ELOOP)
+				}
+				if !strings.HasPrefix(t, "/") {
+					base := cur
+					if base == "" {
+						base = "/"
+					}
+					t = base + "/" + t
+				}
+				rest := strings.Join(segs[i+1:], "/")
+				p = CleanPath(t + "/" + rest)
+				changed = true
+				break
+			}
+			cur = next
+		}
+		if !changed {
+			return p, 0
+		}
+	}
 }
 
 // SortedFiles lists all file paths in lexical order.
@@ -117,6 +176,9 @@ func (d *Disk) children(dir string) (names []string, isDir []bool) {
 	}
 	for p := range d.Dirs {
 		add(p, true)
+	}
+	for p := range d.Links {
+		add(p, false)
 	}
 	for n := range seen {
 		names = append(names, n)
@@ -276,6 +338,12 @@ func applyContentFault(f *Fault, c []byte) []byte {
 
 func (k *Kernel) doReadFile(t *task, path string) Rep {
 	k.ioOps++
+	if rp, st := k.disk.Resolve(path, true); st != 0 {
+		return Rep{Status: st}
+	} else if rp != path {
+		k.probe("reads_through_symlink")
+		path = rp
+	}
 	if f := k.matchFault(OpReadFile, path); f != nil {
 		switch f.Kind {
 		case FReadEIO:
@@ -319,9 +387,21 @@ func (k *Kernel) underFile(path string) bool {
 	return false
 }
 
-// doStat: reply A = 1 for a directory, 0 for a regular file; B = size.
-func (k *Kernel) doStat(t *task, path string) Rep {
+// doStat: reply A = 1 for a directory, 0 for a regular file, 2 for a symbolic link (lstat only); B = size.
+func (k *Kernel) doStat(t *task, path string, lstat bool) Rep {
 	k.ioOps++
+	if len(k.disk.Links) > 0 {
+		rp, st := k.disk.Resolve(path, !lstat)
+		if st != 0 {
+			return Rep{Status: st}
+		}
+		if lstat {
+			if _, ok := k.disk.Links[rp]; ok {
+				return Rep{A: 2}
+			}
+		}
+		path = rp
+	}
 	if f := k.matchFault(OpStat, path); f != nil {
 		k.fired(f)
 		return Rep{Status: int64(syscall.EIO)}
@@ -341,6 +421,11 @@ func (k *Kernel) doStat(t *task, path string) Rep {
 // doReadDir: reply Strs = child names (sorted), Data[i] = 1 for directories.
 func (k *Kernel) doReadDir(t *task, path string) Rep {
 	k.ioOps++
+	if rp, st := k.disk.Resolve(path, true); st != 0 {
+		return Rep{Status: st}
+	} else {
+		path = rp
+	}
 	if f := k.matchFault(OpReadDir, path); f != nil {
 		k.fired(f)
 		return Rep{Status: int64(syscall.EIO)}
